@@ -89,6 +89,22 @@ func c15one(w *bufio.Writer, sz uint64, fill bool) {
 		used, freed, ok := fillDisk(srv)
 		// (a directory keeps the blocks it grew into: the root's growth is not a leak)
 		fmt.Fprintf(w, " | %d %d %d %d %d", used, freed, b2i(ok), st.Balloc.NumFree(), rootBlocks()-rb0)
+		// the same count on disk, and in a server restarted from that disk: a block that is free in memory only,
+		// or marked on disk only, is not "fully usable"
+		rd := logicalReader(srv)
+		diskfree := uint64(0)
+		for b := uint64(su.DataStart()); b < sz; b++ {
+			blk := rd(uint64(su.BitmapBlockStart()) + b/32768)
+			if blk[(b%32768)/8]&(1<<(b%8)) == 0 {
+				diskfree++
+			}
+		}
+		srv.ShutdownNfs()
+		srv2 := nfs.MakeNfs(d)
+		fmt.Fprintf(w, " %d %d", diskfree, srv2.VerifState().Balloc.NumFree())
+		fmt.Fprintln(w)
+		srv2.ShutdownNfs()
+		return
 	}
 	fmt.Fprintln(w)
 	srv.ShutdownNfs()
@@ -132,6 +148,21 @@ func fillDisk(srv *nfs.Nfs) (uint64, uint64, bool) {
 		}
 	}
 	used := free0 - st.Balloc.NumFree()
+	// the edge of "full": give back nine blocks, then ask for twelve in a fresh file - eight direct blocks fit, the
+	// ninth needs an index block and a data block and only one block is left (the index block must be given back)
+	if used >= 60 && len(names) > 0 && st.Balloc.NumFree() == 0 {
+		l := Exec(srv, Op{Proc: "lookup", Name: names[0]}, root, nil)
+		if l.Code == 0 && l.A.Size >= 12*4096 {
+			Exec(srv, Op{Proc: "setattr", HasSize: true, Size: l.A.Size/4096*4096 - 9*4096}, l.H, nil)
+			srv.VerifShrinker().Shutdown()
+			e := Exec(srv, Op{Proc: "create", Name: "edge"}, root, nil)
+			if e.Code == 0 {
+				names = append(names, "edge")
+				Exec(srv, Op{Proc: "write", Off: 0, Cnt: 12 * 4096, Stable: 2, Data: DataSpec{Lit: buf[:12*4096]}}, e.H, nil)
+				Exec(srv, Op{Proc: "write", Off: 8 * 4096, Cnt: 4096, Stable: 2, Data: DataSpec{Lit: buf[:4096]}}, e.H, nil)
+			}
+		}
+	}
 	for _, n := range names {
 		Exec(srv, Op{Proc: "remove", Name: n}, root, nil)
 	}
